@@ -1080,9 +1080,11 @@ class _LazyRel(object):
                     break
             if ok:
                 out.append(ses.materialise(self.target, rec))
-        if self.uselist:
-            return out
-        return out[0] if out else None
+        res = out if self.uselist else (out[0] if out else None)
+        # SQLAlchemy keeps a loaded relationship on the instance: it stays
+        # readable after the session is closed (expire_on_commit=False)
+        inst.__dict__['_rel_' + self.key] = res
+        return res
 
     def __set__(self, inst, value):
         if self.uselist:
